@@ -68,6 +68,17 @@ HofClause(e) ==
     ELSE IF \E i \in 1..(Len(e.after) - 1) : ~Leq(e.after[i].score, e.after[i + 1].score) THEN "HofSorted"
     ELSE "ok"
 
+\* cause of a HofHonest rejection: when every dishonest entry's stored score IS what the library's own evaluation path
+\* returns (stabilizer target, density-matrix state converted by density_to_stabilizer inside Infidelity), the mismatch
+\* is the conversion defect C17-K1 surfacing through the solver, not the hall-of-fame bookkeeping
+CauseOf(t, k, w) ==
+  IF w = "HofHonest" /\ k >= 1 /\ Events(t)[k].ev = "gen"
+     /\ \A i \in DOMAIN Events(t)[k].hof :
+           LET h == Events(t)[k].hof[i] IN
+           (h.oid # 0 /\ ~Close(h.score, h.rescore)) => (h.rescore_lib # Inf /\ Close(h.score, h.rescore_lib))
+  THEN "metric-converts-dm-state-with-density_to_stabilizer"
+  ELSE Traces[t].solver
+
 Init == tid \in 1..Len(Traces) /\ l = 1 /\ why = "ok" /\ prev = [has |-> FALSE]
 Next == /\ why = "ok" /\ l <= Len(Events(tid))
         /\ LET e == Events(tid)[l] IN
@@ -79,6 +90,6 @@ Next == /\ why = "ok" /\ l <= Len(Events(tid))
         /\ l' = l + 1 /\ tid' = tid
 TraceSpec == Init /\ [][Next]_vars
 Report ==
-  /\ (why # "ok") => PrintT(<<"REJECT", Traces[tid].tid, l - 1, why, Traces[tid].solver>>)
+  /\ (why # "ok") => PrintT(<<"REJECT", Traces[tid].tid, l - 1, why, CauseOf(tid, l - 1, why)>>)
   /\ (why = "ok" /\ l = Len(Events(tid)) + 1) => PrintT(<<"DONE", Traces[tid].tid>>)
 =============================================================================
